@@ -12,6 +12,7 @@ import (
 	"sort"
 	"strings"
 
+	"github.com/lindb/lindb/internal/vbox"
 	"github.com/lindb/lindb/internal/vevid"
 )
 
@@ -84,6 +85,10 @@ func main() {
 			rep.Cap(fmt.Sprintf("deadline at case %d", idx))
 			return false
 		}
+		if w.timeouts >= 3 {
+			rep.Cap(fmt.Sprintf("3 queries did not complete (reported as query-timeout), stopped at case %d", idx))
+			return false
+		}
 		c.Menu = tier
 		runCase(w, rep, c)
 		mine++
@@ -147,7 +152,9 @@ func runCase(w *world, rep *vevid.Report, c Case) {
 		if selFilter != "" && !strings.Contains(q.sql("M"), selFilter) {
 			continue
 		}
-		evalQuery(w, rep, c, m, q, metric)
+		if !evalQuery(w, rep, c, m, q, metric) {
+			return // a query hung: the rest of the menu would only wait for more timeouts
+		}
 		for i := 1; i < repeatQueries; i++ {
 			evalQuery(w, rep, c, m, q, metric)
 		}
@@ -164,7 +171,8 @@ var traced int
 // selFilter restricts the menu in probe mode (development aid).
 var selFilter = os.Getenv("C11_SEL")
 
-func evalQuery(w *world, rep *vevid.Report, c Case, m *model, q Query, metric string) {
+// evalQuery returns false when the query did not complete (the case is abandoned).
+func evalQuery(w *world, rep *vevid.Report, c Case, m *model, q Query, metric string) bool {
 	rep.Evaluations++
 	exp := m.eval(q)
 	got, qerr := w.query(q, metric)
@@ -189,9 +197,15 @@ func evalQuery(w *world, rep *vevid.Report, c Case, m *model, q Query, metric st
 			Detail: fmt.Sprintf("%s\nhistory: %s\nquery: %s", detail, c, q.sql("M")), Replay: rc})
 	}
 	if qerr != nil {
+		if msg := qerr.Error(); strings.Contains(msg, "timeout") || strings.Contains(msg, "no response from leaves") || strings.Contains(msg, "deadline exceeded") {
+			w.timeouts++
+			viol("query-timeout", ftfn, fmt.Sprintf("query did not complete within %v: %v", vbox.QueryTimeout, qerr))
+			rep.Outcome("timeout")
+			return false
+		}
 		if len(exp) == 0 {
 			rep.Outcome("empty:error")
-			return
+			return true
 		}
 		cl := "query-error"
 		if c.losesNamesAtReopen() {
@@ -199,7 +213,7 @@ func evalQuery(w *world, rep *vevid.Report, c Case, m *model, q Query, metric st
 		}
 		viol(cl, ftfn, fmt.Sprintf("query failed: %v; reference expects %d points: %s", qerr, len(exp), renderExp(exp)))
 		rep.Outcome("error")
-		return
+		return true
 	}
 	nontrivial := false
 	bad := map[string][]string{} // item -> messages
@@ -271,6 +285,7 @@ func evalQuery(w *world, rep *vevid.Report, c Case, m *model, q Query, metric st
 			viol(clause, ft, strings.Join(bad[it], "; ")+"\nreference: "+renderExp(exp)+"\nlindb:     "+renderGot(got))
 		}
 	}
+	return true
 }
 
 var knownDeviation = map[string]bool{"write-buffer-end-shrinks": true, "empty-meta-flush-stops-persistence": true, "multi-function-same-field": true, "place-partial-aggregate": true,
